@@ -4,6 +4,7 @@ CONSTANTS
   Gen = 5
   N = 8
 INVARIANTS
+  IDFTIsInterpolation
   AgreesOnH
   DegreesAndTop
   SharesRecombine
